@@ -4,4 +4,4 @@
 From Coq Require Extraction ExtrOcamlBasic.
 From GV Require Import ME.Model ME.Monitors.
 Extraction Language OCaml.
-Extraction "me_model.ml" NewMultiEndpoint step legal observe run accept C13_ok C14_ok c13_event c14_event next_list.
+Extraction "me_model.ml" NewMultiEndpoint step legal observe run accept C13_ok C14_ok C14T_ok c13_event c14_event next_list.
